@@ -444,7 +444,11 @@ waitNew:
 		time.Sleep(500 * time.Microsecond)
 	}
 	// let stragglers the harness can see finish (bounded) so that their events are in the log
-	for i := 0; i < 400 && l.openTotal() > 0 && !rr.Stalled; i++ {
+	stragglers := 400
+	if sc.HasStubborn() {
+		stragglers = 12000 // a stubborn overrun returns stubbornHold (2 s) after its deadline
+	}
+	for i := 0; i < stragglers && l.openTotal() > 0 && !rr.Stalled; i++ {
 		time.Sleep(500 * time.Microsecond)
 	}
 	for _, pr := range rr.Plans {
